@@ -152,23 +152,32 @@ func census(r *lib.Run) {
 	}
 	r.Case("sites", toks, strings.Join(toks, ","))
 	r.Stat("class.sites", 1)
-	// call graph: every declaration that reaches a send site
-	keys := reachCensus(r)
-	for _, k := range keys {
+	// call graph: every declaration that reaches a send site.  Compared with the model's table: the anchors (exported
+	// functions / methods reaching a send site, and functions containing one).  An unexported function without a
+	// send site of its own reaches one only through anchors or other such helpers: it inherits their classification
+	// (extracting / inlining unexported helpers is silent; counted below).
+	anchors, helpers := reachCensus(r)
+	for _, k := range anchors {
 		if _, ok := reachClass[k]; !ok {
-			r.Viol("send-reach-not-classified", k+" reaches a send site of the library and C07 neither models it nor lists it as a caller / not modelled", "reach "+k)
+			r.Viol("send-site-reach-not-classified", k+" (exported, or containing a send site) reaches a send site of the library and C07 neither models it nor lists it as a caller / not modelled", "reach "+k)
+		}
+	}
+	all := map[string]bool{}
+	for _, k := range anchors {
+		all[k] = true
+	}
+	for _, k := range helpers {
+		all[k] = true
+		if _, ok := reachClass[k]; !ok {
+			r.Stat("reach.inherited", 1) // new unexported helper
 		}
 	}
 	for k := range reachClass {
-		found := false
-		for _, x := range keys {
-			found = found || x == k
-		}
-		if !found {
-			r.Stat("reach.listed-but-absent."+k, 1)
+		if !all[k] {
+			r.Stat("reach.listed-but-absent", 1)
 		}
 	}
-	r.Case("reach", keys, strings.Join(keys, ","))
+	r.Case("reach", anchors, strings.Join(anchors, ","))
 	r.Stat("class.reach", 1)
 }
 
@@ -249,10 +258,10 @@ var reachClass = map[string]string{
 // reachCensus builds a name-based call graph of the library from the source (every package, no _test.go, no
 // examples/): nodes are function declarations keyed dir:Receiver.Name, a call x.Name(...) or Name(...) has an
 // edge to every declaration called Name (an over-approximation that needs no type information and does not
-// depend on the names of locals or receivers).  It returns, sorted, every declaration from which a send site
+// depend on the names of locals or receivers).  It returns, sorted, every declaration (anchors: exported or containing a send site; helpers: the rest) from which a send site
 // (a WriteTo / WriteToUDP / WriteMsgUDP / Sendto call with a destination) is reachable, function literals and
 // goroutines started inside a function included.
-func reachCensus(r *lib.Run) []string {
+func reachCensus(r *lib.Run) (anchors, helpers []string) {
 	root := os.Getenv("VERIF_REPO")
 	if root == "" {
 		root = "/repo"
@@ -355,12 +364,22 @@ func reachCensus(r *lib.Run) []string {
 			}
 		}
 	}
-	keys := []string{}
+	isUp := func(s string) bool { return s != "" && s[0] >= 'A' && s[0] <= 'Z' }
 	for n := range reach {
-		keys = append(keys, n.key)
+		exported := true
+		for _, part := range strings.Split(n.key[strings.LastIndex(n.key, ":")+1:], ".") {
+			exported = exported && isUp(part)
+		}
+		if exported || n.sink {
+			anchors = append(anchors, n.key)
+		} else {
+			helpers = append(helpers, n.key)
+		}
 	}
-	sort.Strings(keys)
+	sort.Strings(anchors)
+	sort.Strings(helpers)
 	r.Stat("reach.declarations", int64(len(nodes)))
-	r.Stat("reach.reaching-a-send-site", int64(len(keys)))
-	return keys
+	r.Stat("reach.reaching-a-send-site", int64(len(anchors)+len(helpers)))
+	r.Stat("reach.anchors", int64(len(anchors)))
+	return anchors, helpers
 }
